@@ -257,7 +257,7 @@ func finish(w *World, ev *Evidence, results []*harnessResult, kf *knownFindings,
 			scripts = append(scripts, &replayScript{Harness: v.Harness, Pkg: hr.cfg.Pkg, Args: v.Args, Draws: v.Draws, UF: v.UF, Attempts: maxInt(1, hr.cfg.Attempts), vio: v, Race: hr.cfg.Race, StubsOn: hr.cfg.StubsOn})
 		}
 		for _, s := range hr.samples {
-			scripts = append(scripts, &replayScript{Harness: s.Harness, Pkg: hr.cfg.Pkg, Args: s.Args, Draws: s.Draws, UF: s.UF, Attempts: 1, sample: s, StubsOn: hr.cfg.StubsOn})
+			scripts = append(scripts, &replayScript{Harness: s.Harness, Pkg: hr.cfg.Pkg, Args: s.Args, Draws: s.Draws, UF: s.UF, Attempts: maxInt(1, hr.cfg.Attempts), sample: s, StubsOn: hr.cfg.StubsOn})
 		}
 	}
 	tracesValidated := 0
